@@ -146,7 +146,7 @@ func modelResolve(text string, tree map[string]any, canonDefaults ...bool) (stri
 }
 
 var c16Words = []string{"va", "vb", "alpha", "dev", "prod", "h1", "h2", "x-y", "p.q", "a/b"}
-var c16Defaults = []string{"dflt", "fallback", "d1", "zz", "007", "1.10", "TRUE", "'q'", "", "Hello ", " - ", "two words", " lead"}
+var c16Defaults = []string{"dflt", "fallback", "d1", "zz", "007", "1.10", "TRUE", "'q'", "", "Hello ", " - ", "two words", " lead", ":8080", "::1", "://host"}
 
 func genC16Config(c *core.Ctx) c16Cfg {
 	cfg := c16Cfg{tree: map[string]any{}}
